@@ -21,7 +21,8 @@ points is atomic.  The model is a labelled transition system with a *current* ta
 (`cur`): `tick` advances the current task by one micro-step (one `_get` entry, one
 factory call, one scope entry/exit); when the task suspends or finishes `cur`
 becomes `none` and only then may the environment `spawn` a new task or `resume` a
-suspended one (open its gate; run a waiter the lock was handed to).  A schedule is an arbitrary list of actions;
+suspended one (open its gate; run a waiter the lock was handed to) or `cancel` one (throw
+`CancelledError` into it where it is suspended).  A schedule is an arbitrary list of actions;
 disabled actions are ignored (`stepD`).
 
 `Cfg.excl` selects the scope discipline: `false` is the code before the repair
@@ -102,6 +103,9 @@ inductive Outcome where
   | failed (rid : Nat)
   /-- a dependency index outside the graph (cannot happen with real descriptors) -/
   | badRef (rid : Nat)
+  /-- `asyncio.CancelledError` was thrown into the invocation where it was suspended
+  (the step worker was cancelled: `cancel_run`, the workflow timeout, `cleanup_tasks`) -/
+  | cancelled
 deriving DecidableEq, Repr
 
 inductive Phase where
@@ -157,6 +161,8 @@ inductive Act where
   | spawn (reqs : List Nat) (bare : Bool)
   | tick
   | resume (t : Nat)
+  /-- the task of invocation `t` is cancelled where it is suspended -/
+  | cancel (t : Nat)
 deriving DecidableEq, Repr
 
 /-- the same graph with every factory returning an ordinary object -/
@@ -198,6 +204,20 @@ def unwind (resolving : List Nat) (stack : List Frame) : List Nat :=
 
 def raise (c : Cfg) (s : St) (t : Nat) (k : Task) (o : Outcome) : St :=
   finish c { s with resolving := unwind s.resolving k.stack } t k o
+
+/-- `CancelledError` reaches an invocation that waits in the queue of the scope lock
+(`asyncio.Lock.acquire`): it leaves the queue without ever entering a scope.  If the
+lock had already been handed to it (the releasing task woke it, but it has not run yet)
+`acquire` passes the lock on to the next waiter. -/
+def cancelWait (s : St) (t : Nat) (k : Task) : St :=
+  let s1 := { s with
+    tasks := s.tasks.set t { k with phase := .done .cancelled, stack := [], todo := [] },
+    log := .fin t .cancelled :: s.log }
+  if s.lock = some t then
+    match s.waiters.erase t with
+    | [] => { s1 with lock := none, waiters := [], cur := none }
+    | w :: ws => { s1 with lock := some w, waiters := ws, cur := none }
+  else { s1 with lock := s.lock, waiters := s.waiters.erase t, cur := none }
 
 /-- `_get(x)` returns `v` to its caller: a dependent factory's argument list, or
 the step's keyword arguments. -/
@@ -317,6 +337,24 @@ def step (c : Cfg) (g : Graph) (s : St) : Act → Option St
           | some obj => some (complete c g { s with cur := some t } t k { f with waiting := none } fs obj)
           | none => none
         | .lockWait, _ => if s.lock = some t then some { s with cur := some t } else none
+        | _, _ => none
+  | .cancel t =>
+    -- Cancellation is delivered where a task is suspended: at the await inside an async
+    -- factory -- `CancelledError` then propagates out of every `_get` activation of the
+    -- task like any exception (each `finally` un-marks its resource, `resolution_scope`
+    -- closes the scope and releases the lock) -- or in the queue of the scope lock.
+    match s.cur with
+    | some _ => none
+    | none =>
+      match s.tasks[t]? with
+      | none => none
+      | some k =>
+        match k.phase, k.stack with
+        | .active, f :: _ =>
+          match f.waiting with
+          | some _ => some (raise c s t k .cancelled)
+          | none => none
+        | .lockWait, _ => some (cancelWait s t k)
         | _, _ => none
 
 def stepD (c : Cfg) (g : Graph) (s : St) (a : Act) : St := (step c g s a).getD s
